@@ -66,14 +66,15 @@ func (e *Explorer) Begin() bool {
 		return false
 	}
 	// advance the odometer: find the deepest frame with another affordable alternative
+	// prefix[i] = cost spent before frame i
+	prefix := make([]int, len(e.stack)+1)
+	for j := range e.stack {
+		prefix[j+1] = prefix[j] + e.cost(&e.stack[j], e.stack[j].cur)
+	}
 	for len(e.stack) > 0 {
 		i := len(e.stack) - 1
 		f := &e.stack[i]
-		// cost spent before frame i
-		before := 0
-		for j := 0; j < i; j++ {
-			before += e.cost(&e.stack[j], e.stack[j].cur)
-		}
+		before := prefix[i]
 		next := -1
 		for alt := f.cur + 1; alt < f.n; alt++ {
 			if before+e.cost(f, alt) <= e.Budget {
